@@ -22,6 +22,14 @@ CHECKS = {
          "explicit-state exhaustive search as C05 with an exact big.Rat reference model of per-block release and stake-weighted entitlement carried along every path and compared in every reached state",
          "Same histories as C05; reference model releases reward-per-block exactly while someone is staked and splits it pro rata in exact rationals. In every state: funded = remaining + released (after settling on a branch), released = paid + collector, refund to the creator exactly once (at end height or destroy) and equal to funded - released, each farmer's paid+accrued within (interactions+1) units (+1e-18 truncation term) of the exact share.",
          "DESIGN.md §3 C06"),
+ "C01": ("model_checking",
+         "exhaustive enumeration of the price functions over a finite input lattice (all small triples, powers of two +-1 up to 2^128, 5 boundary fees) plus explicit-state exhaustive search over swap/add/remove/one-sided/donate/fee-change sequences on the real coinswap keeper, invariant recomputed from observed balances in exact integers",
+         "Kernel: every (amount, reserve_in, reserve_out, fee) in the lattice checked against the fee-inclusive constant-product inequality, maximality of the received amount and minimality+1 of the paid amount. Search: every operation sequence up to the depth bound on two pools (small non-round reserves and reserves near 2^127): after every successful message S'T'L^2 >= STL'^2 per pool and the fee rule per swap leg from observed reserve deltas.",
+         "DESIGN.md §3 C01"),
+ "C02": ("model_checking",
+         "explicit-state exhaustive search over swap/liquidity message sequences with a full balance-sheet oracle (all accounts of the universe + supply per denom) and a differential bound oracle (amounts learned on a throw-away branch, then bounds set exact / off by one)",
+         "Every sequence up to the depth bound of sell/buy orders (single and routed, recipient = sender / other / blocked, bounds loose / exact / missed by one, deadline now / past) and liquidity messages (incl. first add on a new pool with creation fee, re-seeding a drained pool): the observed delta of every account and every supply must equal exactly what the property allows; stated maxima/minima and deadlines are checked on what actually moved.",
+         "DESIGN.md §3 C02"),
 }
 NOT_YET = "check not built yet in this phase of the work (see DESIGN.md §6 change log); not claimed"
 
